@@ -2,6 +2,7 @@
 // Never memcpy: padding, private shadow members and layout refactors must not matter.
 #pragma once
 #include <array>
+#include <cstring>
 #include <string>
 #include <vector>
 #include "register.h"
@@ -186,6 +187,24 @@ inline CaseState RandomState(Rng& g, const StateGenOpts& o = {}) {
             s[n] = 0;
     }
     return s;
+}
+
+// HISTORY between cases: harnesses keep one interpreter alive across cases, so whatever it remembers between steps is
+// part of what they observe. To give such hidden state a chance to matter, cases come in groups that share a "group
+// state"; MixSticky overwrites each field of a fresh state with the group's value with probability num/den
+// (independently per field), so that consecutive cases agree bit for bit on most registers and differ in a few.
+// Fields whose combinations are constrained (program counter, loop / repeat / interrupt machinery) always stay fresh.
+inline void MixSticky(Rng& g, CaseState& fresh, const CaseState& group, unsigned num = 3, unsigned den = 4) {
+    auto& f = Fields();
+    for (size_t i = 0; i < f.size(); ++i) {
+        const char* n = f[i].name;
+        bool structural = !std::strcmp(n, "pc") || !std::strcmp(n, "prpage") || !std::strcmp(n, "bcn") || !std::strcmp(n, "lp") ||
+                          !std::strcmp(n, "rep") || !std::strcmp(n, "ie") || !std::strncmp(n, "ip", 2) || !std::strncmp(n, "bkrep", 5) ||
+                          !std::strcmp(n, "mod0_unk_const");
+        bool keep = g.chance(num, den); // drawn for every field so that the stream does not depend on the names
+        if (keep && !structural)
+            fresh.v[i] = group.v[i];
+    }
 }
 
 } // namespace vf
